@@ -19,6 +19,13 @@ CHECKS['C20'] = dict(engine='E1-crosshair', technique='bounded symbolic executio
 CHECKS['C16'] = dict(engine='E1-crosshair', technique='bounded symbolic execution with SMT (CrossHair/z3): one operation from an arbitrary valid map vs reference ordered-map model; replay',
    text='One CrossHair condition per SortableDict/MetadataObject operation. The pre-state (which of 4-5 keys, in which order, with which symbolic values) and every argument (key, value, index, pos_key, after, replace) are symbolic; the real method and a reference ordered-map model run in lock step; the representation invariant is re-established after every operation, so the step result extends to histories (induction schema trusted). "confirmed" = all paths exhausted within the bound.',
    note='Trusts CrossHair/z3; the reference model is written from the add_item docstring; keys are concrete strings chosen by symbolic selectors; multi-item extend/update compared item by item.', ref='5 C16')
+SYMX = 'E2-symx'
+for pid, what, ref in (('C14', 'list behaviour (len, iteration, indexing incl. negative, slicing with carried version/metadata/columns, membership, exception class, refused operations change nothing)', '5 C14'),
+                       ('C15', 'g[key]/g.get(key) against a scan of the model list (a current row with that id string, else KeyError/default)', '5 C15')):
+    CHECKS[pid] = dict(engine=SYMX, technique='bounded symbolic execution of the real Grid code (own explorer, z3 decides every branch): one operation from an arbitrary small grid in lock step with a list model; replay',
+       text='One exhaustive symbolic exploration per (operation, pre-state size): the pre-state (row kinds with str/int/Ref/no ids, id index never built or built, version explicit/default/auto-upgraded) and all arguments are symbolic selectors/ints; the real Grid method and a Python list run in lock step and are compared through ' + what + '. Also a two-step family and a derived-grid (slice/filter) family. The work list empties, so every path within the bound is decided.',
+       note='Trusts the symx explorer (proxies + z3) and the list model; rows are concrete dicts chosen by symbolic selectors; bounds: <=2 (quick) / <=3 (thorough) rows in the pre-state; counterexamples replayed on plain CPython.', ref=ref)
+CHECKS['C16']['engine'] = SYMX
 NA_REASON = {}
 
 def main():
